@@ -57,7 +57,7 @@ def base_env(pid, tier, seed):
     env['VERIF_PROP'] = pid
     env['VERIF_TIER'] = tier
     env['ASAN_OPTIONS'] = 'detect_leaks=0:abort_on_error=0:allocator_may_return_null=1:handle_abort=0:detect_stack_use_after_return=0'
-    env['UBSAN_OPTIONS'] = 'print_stacktrace=1:halt_on_error=1'
+    env['UBSAN_OPTIONS'] = 'print_stacktrace=1:halt_on_error=1:abort_on_error=1'
     env['TSAN_OPTIONS'] = 'halt_on_error=1:second_deadlock_stack=1:report_signal_unsafe=0'
     env.pop('RC_PARAMS', None)
     return env
@@ -75,6 +75,26 @@ def replay_once(binpath, pid, tier, seed, path, extra_env=None, timeout=300):
         return None, out   # inconclusive
     ok = (rc == 0 and 'REPLAY-OK' in out)
     return (not ok), out
+
+
+def sanitizer_verdict(pid, out):
+    """Turn a sanitizer report in a replay's output into (key, verdict); None if there is none."""
+    import re
+    m = re.search(r'(\S+?)([^/\s:]+\.[ch]):(\d+):\d+: runtime error: ([^\n]*)', out)
+    if m:
+        what = re.sub(r'-?\d+', 'N', m.group(4))[:60]
+        return '%s:ubsan:%s:%s' % (pid, m.group(2), what.strip()), 'UBSan: %s:%s: %s' % (m.group(2), m.group(3), m.group(4))
+    m = re.search(r'ERROR: (AddressSanitizer|ThreadSanitizer|LeakSanitizer): ([\w-]+)', out)
+    if m:
+        fm = re.search(r'#\d+ \S+ in (\w+) \S*/src/([\w.-]+):(\d+)', out)
+        where = (fm.group(1) if fm else '?')
+        return '%s:%s:%s:%s' % (pid, 'asan' if m.group(1) == 'AddressSanitizer' else m.group(1).lower(), m.group(2), where), \
+            '%s: %s in %s' % (m.group(1), m.group(2), (fm.group(1) + ' ' + fm.group(2) + ':' + fm.group(3)) if fm else 'unknown frame')
+    m = re.search(r'WARNING: ThreadSanitizer: ([^\n(]+)', out)
+    if m:
+        fm = re.search(r'#\d+ (\w+) \S*/src/([\w.-]+):(\d+)', out)
+        return '%s:tsan:%s:%s' % (pid, m.group(1).strip().replace(' ', '-'), fm.group(1) if fm else '?'), 'TSan: ' + m.group(1).strip()
+    return None
 
 
 def finding_key_from_verdict(verdict):
@@ -156,7 +176,11 @@ def run_property(prop, tier, seed, replay=None):
             for l in out.splitlines():
                 if l.startswith('REPLAY-FAIL'):
                     verdict = l[len('REPLAY-FAIL'):].strip()
-            violations.append((finding_key_from_verdict(verdict) if verdict else pid + ':crash', verdict or out[-400:], path))
+            if verdict:
+                violations.append((finding_key_from_verdict(verdict), verdict, path))
+            else:
+                sv = sanitizer_verdict(pid, out)
+                violations.append(sv + (path,) if sv else (pid + ':crash', out[-400:], path))
 
     # 3. generated search
     jobs = []
@@ -251,9 +275,16 @@ def run_property(prop, tier, seed, replay=None):
         need = 3 if s.kind != 'stress' else 1
         if nfail >= need:
             v2 = verdict
+            got = False
             for l in last.splitlines():
                 if l.startswith('REPLAY-FAIL'):
                     v2 = l[len('REPLAY-FAIL'):].strip()
+                    got = True
+            skey = None
+            if not got:
+                sv = sanitizer_verdict(pid, last)
+                if sv:
+                    skey, v2 = sv
             # make the replay file self-describing
             try:
                 txt = open(path, errors='replace').read()
@@ -261,7 +292,7 @@ def run_property(prop, tier, seed, replay=None):
                     open(path, 'w').write('#harness %s\n' % s.harness + txt)
             except Exception:
                 pass
-            violations.append((finding_key_from_verdict(v2), v2, path))
+            violations.append((skey or finding_key_from_verdict(v2), v2, path))
         else:
             notes.append('candidate failure from %s did not reproduce %d/3 from its replay file (%s): unreproduced, not reported' % (s.name, nfail, path))
             merged['counters']['unreproduced_candidates'] = merged['counters'].get('unreproduced_candidates', 0) + 1
